@@ -80,14 +80,19 @@ func c10CheckRun(snaps []c10Snap, from int, rn uint32) int {
 
 // Histories over one environment, with real START/STOP/GO_ERROR transitions, an arbitrary non-decreasing
 // clock and arbitrary increasing run numbers:
-//   0: START, STOP, START        1: START, GO_ERROR        2: START (tasks fail), START
-//   3: START, STOP (tasks fail), GO_ERROR (what the API does with a failed transition)
-//   4: START cancelled by a failing critical before_START_ACTIVITY+1 hook, START
-//   5: START, STOP whose tasks stop but a critical hook fails late (enter_CONFIGURED+1 or after_STOP_ACTIVITY+1):
-//      the run is over all the same - end stamps set, number gone -, then START again
-//verif:entry HarnessRunBracket unwind=96 conform=12 preempt=0 reach=h0,h1,h2,h3,h4,h5 stub=github.com/AliceO2Group/Control/common/utils.TimeTrack nosched=github.com/AliceO2Group/Control/core/the.mu steps=6000000
+//
+//	0: START, STOP, START        1: START, GO_ERROR        2: START (tasks fail), START
+//	3: START, STOP (tasks fail), GO_ERROR (what the API does with a failed transition)
+//	4: START cancelled by a failing critical before_START_ACTIVITY+1 hook, START
+//	5: START, STOP whose tasks stop but a critical hook fails late (enter_CONFIGURED+1 or after_STOP_ACTIVITY+1):
+//	   the run is over all the same - end stamps set, number gone -, then START again
+//	6: START, STOP, then a START cancelled before a run number is drawn (critical before_START_ACTIVITY-1 hook), then
+//	   the GO_ERROR the API performs after a failed transition: no run exists, the stamps of the finished run stay as
+//	   they were
+//
+//verif:entry HarnessRunBracket unwind=96 conform=12 preempt=0 reach=h0,h1,h2,h3,h4,h5,h6 stub=github.com/AliceO2Group/Control/common/utils.TimeTrack nosched=github.com/AliceO2Group/Control/core/the.mu steps=6000000
 func HarnessRunBracket() {
-	hist := vrt.IntRange("history", 0, 5)
+	hist := vrt.IntRange("history", 0, 6)
 	rn1, rn2 := vrt.Uint32("rn1"), vrt.Uint32("rn2")
 	vrt.Assume(rn1 > 0 && rn2 > rn1)
 	rec := &fenvRec{}
@@ -95,13 +100,17 @@ func HarnessRunBracket() {
 	var snaps []c10Snap
 	hookFailsOnce := hist == 4 || hist == 5
 	failingHook := "before_START_ACTIVITY+1"
+	if hist == 6 {
+		failingHook = "before_START_ACTIVITY-1"
+	}
+	armed := hist != 6 // in history 6 the hook only fails on the second START
 	if hist == 5 {
 		failingHook = []string{"enter_CONFIGURED+1", "after_STOP_ACTIVITY+1"}[vrt.IntRange("late.failure", 0, 1)]
 	}
 	rec.onCall = func(c *callable.Call) error {
 		snaps = append(snaps, c10Take(env, c.GetName()))
-		if hookFailsOnce && c.GetName() == "root."+failingHook {
-			hookFailsOnce = false
+		if (hookFailsOnce || hist == 6) && armed && c.GetName() == "root."+failingHook {
+			hookFailsOnce, armed = false, false
 			return errors.New("hook failed")
 		}
 		return nil
@@ -114,7 +123,7 @@ func HarnessRunBracket() {
 		return rn2
 	}
 	probes := c10Probes()
-	if hist == 4 || hist == 5 {
+	if hist == 4 || hist == 5 || hist == 6 {
 		for i := range probes {
 			probes[i].critical = probes[i].name == failingHook
 		}
@@ -168,6 +177,24 @@ func HarnessRunBracket() {
 		vrt.Assert(conf.rnCalls == 2, "every-attempt-to-start-draws-a-fresh-run-number")
 		c10CheckRun(snaps, n, rn2)
 		vrt.Reach("h4")
+	case 6:
+		vrt.Assert(env.TryTransition(start) == nil && env.CurrentState() == "RUNNING", "first-start-succeeds")
+		vrt.Assert(env.TryTransition(stop) == nil && env.CurrentState() == "CONFIGURED", "stop-succeeds")
+		endSet()
+		finished := c10Take(env, "after-stop")
+		armed = true
+		vrt.Assert(env.TryTransition(start) != nil && env.CurrentState() == "CONFIGURED", "start-cancelled-by-a-critical-hook")
+		vrt.Assert(env.GetCurrentRunNumber() == 0 && conf.rnCalls == 1, "cancelled-before-a-run-number-is-drawn")
+		if !vrt.Symbolic() {
+			time.Sleep(3 * time.Millisecond)
+		}
+		vrt.Assert(env.TryTransition(goErr) == nil && env.CurrentState() == "ERROR", "go-error-after-the-failed-start")
+		after := c10Take(env, "after-go-error")
+		for k := 0; k < 4; k++ {
+			vrt.Assert(after.ts[k] == finished.ts[k], "stamps-of-a-finished-run-are-not-touched-when-no-run-exists")
+		}
+		c10CheckRun(snaps, 0, rn1)
+		vrt.Reach("h6")
 	case 5:
 		vrt.Assert(env.TryTransition(start) == nil && env.CurrentState() == "RUNNING", "first-start-succeeds")
 		vrt.Assert(env.TryTransition(stop) != nil && env.CurrentState() == "CONFIGURED", "late-hook-failure-is-reported-and-the-run-is-stopped")
